@@ -91,6 +91,58 @@ def decodeStrAux : List Char → Bool → Option Nat → Bytes → Option Bytes
         | none => decodeStrAux cs true (some d) acc
         | some h => decodeStrAux cs true none (acc ++ [b8 (h * 16 + d)])
 
+
+/-! ### Compiled code only: the same function with a reversed accumulator
+
+`decodeStrAux` appends to the end of a list, which is quadratic when it is *run* on the 64 KiB literals of the
+scale campaigns.  The theorems keep talking about `decodeStrAux`; `@[csimp]` makes the compiler use the linear
+variant below, on the strength of the equation proved here (no `implemented_by`, nothing trusted). -/
+
+def decodeStrRev : List Char → Bool → Option Nat → Bytes → Option Bytes
+  | [], _, _, racc => some racc.reverse
+  | c :: cs, false, _, racc =>
+    if c == '|' then decodeStrRev cs true none racc
+    else decodeStrRev cs false none ((utf8 c).reverse ++ racc)
+  | c :: cs, true, hi, racc =>
+    if isUniWhitespace c || isHexSep c then decodeStrRev cs true hi racc
+    else if c == '|' then
+      match hi with
+      | some _ => none
+      | none => decodeStrRev cs false none racc
+    else match hexVal c with
+      | none => none
+      | some d => match hi with
+        | none => decodeStrRev cs true (some d) racc
+        | some h => decodeStrRev cs true none (b8 (h * 16 + d) :: racc)
+
+theorem decodeStrRev_eq (cs : List Char) (hex : Bool) (hi : Option Nat) (racc : Bytes) :
+    decodeStrRev cs hex hi racc = decodeStrAux cs hex hi racc.reverse := by
+  induction cs generalizing hex hi racc with
+  | nil => simp [decodeStrRev, decodeStrAux]
+  | cons c cs ih =>
+    cases hex with
+    | false =>
+      simp only [decodeStrRev, decodeStrAux]
+      split
+      · exact ih ..
+      · rw [ih]; simp [List.reverse_append]
+    | true =>
+      simp only [decodeStrRev, decodeStrAux]
+      split
+      · exact ih ..
+      · split
+        · cases hi <;> simp [ih]
+        · cases hexVal c with
+          | none => rfl
+          | some d => cases hi <;> simp [ih]
+
+def decodeStrAuxImpl (cs : List Char) (hex : Bool) (hi : Option Nat) (acc : Bytes) : Option Bytes :=
+  decodeStrRev cs hex hi acc.reverse
+
+@[csimp] theorem decodeStrAux_eq_impl : @decodeStrAux = @decodeStrAuxImpl := by
+  funext cs hex hi acc
+  simp [decodeStrAuxImpl, decodeStrRev_eq]
+
 def decodeStr (s : String) : Option Bytes := decodeStrAux s.toList false none []
 
 /-- `Val::from_token` for the five literal token kinds -/
